@@ -365,6 +365,54 @@ def run_yin(cx):
                      "request": "resolve %s %s %d" % (hexs(doc), "N" if an is None else hexs(an), 1 if ye else 0)})
 
 
+def run_card(cx):
+    """the emission patterns of Generated/YinCard.lean against what libyang prints: the YIN text of every module of the C10 module run
+    (real modules + generated ones, printed by lys_print through api_schema) is read with expat, and for every <leaf>, <typedef>,
+    <container> element the sequence of child-statement keywords (`-` = an element of another namespace, an extension instance) must be
+    an emission of the generated pattern — `Yin.Card.isEmission`, evaluated by the Lean driver — and pass the parser's rules (`cardOk`)"""
+    import xml.etree.ElementTree as ET
+    mods, rr = getattr(cx, "_c10_mods", None), getattr(cx, "_c10_rr", None)
+    if not mods or rr is None:
+        return
+    Y = "{" + YIN_NS.decode() + "}"
+    seqs = {}           # (kind, sequence) -> (count, example module)
+    ntot = {"leaf": 0, "typedef": 0, "container": 0}
+    nparsed = 0
+    for i, m in enumerate(mods):
+        r = rr.get(str(2 * i), ["err"])
+        if r[0] != "ok" or len(r) < 11 or r[10] == "-":
+            continue
+        try:
+            root = ET.fromstring(unhex(r[10]))
+        except ET.ParseError:
+            continue            # (a YIN text that is not well-formed is a failure of the yin_parse law already)
+        nparsed += 1
+        for el in root.iter():
+            if not isinstance(el.tag, str) or not el.tag.startswith(Y):
+                continue
+            kind = el.tag[len(Y):]
+            if kind not in ntot:
+                continue
+            seq = tuple((c.tag[len(Y):].encode() if c.tag.startswith(Y) else b"") for c in el if isinstance(c.tag, str))
+            ntot[kind] += 1
+            k = (kind, seq)
+            seqs[k] = (seqs.get(k, (0, None))[0] + 1, seqs.get(k, (0, m["name"]))[1] or m["name"])
+    keys = sorted(seqs)
+    lines = ["%d %s card %s %s" % (i, COMP, kind, ",".join(hexs(x) for x in seq) if seq else ".") for i, (kind, seq) in enumerate(keys)]
+    rm = cx.run_model(lines)
+    for i, (kind, seq) in enumerate(keys):
+        r = rm.get(str(i), ["err", "NoReply"])
+        ok = r[:3] == ["ok", "1", "1"]
+        cx.count(("yin-card", kind, seq), True, "yin:emission:%s:%s" % (kind, "matches" if ok else "differs"))
+        if not ok:
+            cx.fail(COMP, "the child statements libyang's YIN printer writes for a %s are not an emission of the generated pattern "
+                          "(Generated/YinCard.lean yinEmit_%s) or break the parser's cardinality rules" % (kind, kind),
+                    {"law": "yin-emission", "kind": kind, "children": [x.decode() or "(extension instance)" for x in seq],
+                     "model": r, "seen": seqs[(kind, seq)][0], "module": seqs[(kind, seq)][1].decode("utf-8", "replace"), "request": lines[i].split(" ", 1)[1]})
+    cx.notes.append("yin emission patterns: %d YIN texts read; child sequences checked / distinct: %s" %
+                    (nparsed, ", ".join("%s %d / %d" % (k, ntot[k], sum(1 for kk in keys if kk[0] == k)) for k in sorted(ntot))))
+
+
 def classify(component, what, case):
     """F36: yin-element argument that is empty or XML white space only (the argument resolution reports it missing); F86 (YIN part):
     an extension instance nested in an extension instance (ext->exts, or a prefixed statement with an argument among the
